@@ -7,6 +7,7 @@ for P in $props; do
   for m in mutants/$P-*.diff seeded/$P-*/patch.diff; do
     [ -f "$m" ] || continue
     if [ -f "$(dirname $m)/meta.json" ] && jq -e .neutralised_by "$(dirname $m)/meta.json" >/dev/null; then echo "$P $m: SKIPPED (neutralised by a later repair)"; continue; fi
+    if [ -f "$(dirname $m)/meta.json" ] && jq -e .outside_statement "$(dirname $m)/meta.json" >/dev/null; then echo "$P $m: SKIPPED (outside the statement: $(tools/mutant.sh "$m" $P quick 2>&1 | tail -n 1))"; continue; fi
     tier=quick
     [ -f "$(dirname $m)/meta.json" ] && t=$(jq -r '.tier // "quick"' "$(dirname $m)/meta.json") && tier=$t
     res=$(tools/mutant.sh "$m" $P $tier 2>&1 | tail -n 1)
